@@ -6,6 +6,7 @@
 package main
 
 import (
+	"context"
 	"crypto/sha1"
 	"encoding/hex"
 	"encoding/json"
@@ -262,6 +263,9 @@ type Case struct {
 	Repeat  int             `json:"repeat"`
 	Lenient bool            `json:"lenient"`
 	Race    bool            `json:"-"` // run under the Go race detector (separate binary)
+	// DeadlineMs > 0: the case is a deadlock candidate; it runs in a process of
+	// its own and counts as reproduced when the harness does not return in time
+	DeadlineMs int `json:"deadline_ms,omitempty"`
 }
 
 type NativeResult struct {
@@ -274,8 +278,26 @@ type NativeResult struct {
 		Val   string `json:"val"`
 	} `json:"observes"`
 	Covers  []string `json:"covers"`
-	Assumed bool     `json:"assume_failed"`
-	Race    string   `json:"-"` // first lines of Go's race report, if any
+	Assumed  bool     `json:"assume_failed"`
+	TimedOut bool     `json:"timed_out"`
+	Race     string   `json:"-"` // first lines of Go's race report, if any
+}
+
+// a native harness run takes milliseconds; one that has not returned after this
+// long is blocked
+const deadlockDeadlineMs = 20000
+
+const (
+	nativeBatchBase = 45 * time.Second
+	nativePerCase   = 3 * time.Second
+)
+
+func replayCase(rf *ReplayFile) Case {
+	c := Case{Harness: rf.Violation.Harness, Nondets: rf.Violation.Nondets, Tier: rf.Tier, Repeat: 12, Race: rf.Violation.Kind == "race"}
+	if rf.Violation.Kind == "deadlock" {
+		c.DeadlineMs = deadlockDeadlineMs
+	}
+	return c
 }
 
 // raceReportFor returns the first data-race report of Go's race detector that
@@ -418,10 +440,30 @@ func nativeRun1(pkgPath, pkgName string, funcs []string, cases []Case, race bool
 		inFile := filepath.Join(tmp, "cases"+tag+".json")
 		outFile := filepath.Join(tmp, "results"+tag+".json")
 		os.WriteFile(inFile, cb, 0o644)
-		cmd := exec.Command(bin, "-test.run", "^TestVerifReplay$", "-test.count=1")
+		// a native batch takes seconds; a process that hangs (a target that
+		// deadlocks outside a deadlock candidate) is killed and reported as died
+		// budget: a minute plus a few seconds per (repeated) case
+		budget := nativeBatchBase
+		for _, c := range cs {
+			n := c.Repeat
+			if n < 1 {
+				n = 1
+			}
+			budget += time.Duration(n) * nativePerCase
+			if c.DeadlineMs > 0 {
+				budget += time.Duration(c.DeadlineMs) * time.Millisecond
+			}
+		}
+		ctx, cancel := context.WithTimeout(context.Background(), budget)
+		defer cancel()
+		cmd := exec.CommandContext(ctx, bin, "-test.run", "^TestVerifReplay$", "-test.count=1", "-test.timeout=0")
 		cmd.Dir = pkgDir
 		cmd.Env = append(goEnv(), "VERIF_REPLAY="+inFile, "VERIF_REPLAY_OUT="+outFile)
+		cmd.WaitDelay = 5 * time.Second
 		out, err := cmd.CombinedOutput()
+		if ctx.Err() != nil {
+			out = append(out, []byte("\nfatal error: native run killed after "+budget.String()+" (hung)\n")...)
+		}
 		rb, rerr := os.ReadFile(outFile)
 		if rerr != nil {
 			return nil, string(out), fmt.Errorf("native run produced no results: %v (%v)", rerr, err)
@@ -464,6 +506,31 @@ func nativeRun1(pkgPath, pkgName string, funcs []string, cases []Case, race bool
 				}
 			}
 			res = append(res, r)
+		}
+		return res, all, nil
+	}
+	// deadlock candidates: one process each (a blocked harness never returns)
+	solo := false
+	for _, c := range cases {
+		if c.DeadlineMs > 0 {
+			solo = true
+		}
+	}
+	if solo {
+		var res []NativeResult
+		var all string
+		for i, c := range cases {
+			one := c
+			if one.DeadlineMs > 0 {
+				one.Repeat = 0
+			}
+			r1, o1, e1 := runBatch([]Case{one}, fmt.Sprintf("s%d", i))
+			all += o1
+			if e1 == nil && len(r1) == 1 {
+				res = append(res, r1[0])
+			} else {
+				res = append(res, NativeResult{Harness: c.Harness, Panic: "process died: " + firstLines(o1, 3)})
+			}
 		}
 		return res, all, nil
 	}
@@ -783,7 +850,11 @@ func cmdRun(args []string) int {
 		for _, lb := range labels {
 			vs := byLabel[lb]
 			for i := 0; i < len(vs) && i < 3; i++ {
-				cases = append(cases, Case{Harness: h.Fn, Nondets: vs[i].Nondets, Tier: tierN, Repeat: 12, Race: vs[i].Kind == "race"})
+				c := Case{Harness: h.Fn, Nondets: vs[i].Nondets, Tier: tierN, Repeat: 12, Race: vs[i].Kind == "race"}
+				if vs[i].Kind == "deadlock" {
+					c.DeadlineMs = deadlockDeadlineMs
+				}
+				cases = append(cases, c)
 				refs = append(refs, ref{label: lb, v: &vs[i]})
 			}
 		}
@@ -843,8 +914,11 @@ func cmdRun(args []string) int {
 								fmt.Printf("  (go test -race reported races, but none in the function of %q)\n%s\n", rf.label, firstLines(r.Race, 40))
 							}
 						} else if rf.v.Kind == "panic" {
-							ok = r.Panic != ""
+							ok = r.Panic != "" && !r.TimedOut
 							reproDetail[rf.label] = r.Panic
+						} else if rf.v.Kind == "deadlock" {
+							ok = r.TimedOut
+							reproDetail[rf.label] = rf.v.Detail + " | native run: " + r.Panic
 						} else {
 							for _, f := range r.Failures {
 								if f == rf.label {
@@ -1111,7 +1185,7 @@ func cmdReplay(args []string) int {
 	harnessPkgs[rf.Pkg] = true
 	ld := load([]string{rf.Pkg})
 	pkg := ld.pkgs[rf.Pkg]
-	res, out, err := nativeRun(rf.Pkg, pkg.Pkg.Name(), harnessFuncs(pkg), []Case{{Harness: rf.Violation.Harness, Nondets: rf.Violation.Nondets, Tier: rf.Tier, Repeat: 12, Race: rf.Violation.Kind == "race"}})
+	res, out, err := nativeRun(rf.Pkg, pkg.Pkg.Name(), harnessFuncs(pkg), []Case{replayCase(&rf)})
 	if err != nil {
 		fmt.Println(out)
 		fatal("%v", err)
@@ -1124,7 +1198,10 @@ func cmdReplay(args []string) int {
 	fmt.Printf("  failures=%v panic=%q diverged=%q\n", r.Failures, r.Panic, r.Diverged)
 	ok := false
 	if rf.Violation.Kind == "panic" {
-		ok = r.Panic != ""
+		ok = r.Panic != "" && !r.TimedOut
+	}
+	if rf.Violation.Kind == "deadlock" {
+		ok = r.TimedOut
 	}
 	if rf.Violation.Kind == "race" {
 		rep := raceReportFor(r.Race, rf.Violation.Label)
